@@ -30,7 +30,28 @@ def models():
     out.append(('Univariate(parametric)', lambda X: U.Univariate(parametric=U.ParametricType.PARAMETRIC)))
     out.append(('Univariate(Gaussian,KDE)', lambda X: U.Univariate(candidates=[U.GaussianUnivariate, U.GaussianKDE])))
     out.append(('Univariate(bounded)', lambda X: U.Univariate(bounded=U.BoundedType.BOUNDED)))
+    out.append(('Univariate(instances)', _shared_wrapper))
     return out
+
+
+def _shared_wrapper(X):
+    """a wrapper whose candidates are given as instances; the caller keeps the list and builds a second wrapper from it later"""
+    import copulas.univariate as U
+    shared = [U.GaussianUnivariate(), U.GaussianKDE(bw_method='silverman'), U.TruncatedGaussian()]
+    m = U.Univariate(candidates=shared)
+    m._verif_shared = shared
+    return m
+
+
+def _sibling(m, X):
+    """the caller's other wrapper, built from the same list of candidate instances, learns other data: the first wrapper is not affected"""
+    shared = getattr(m, '_verif_shared', None)
+    if shared is not None:
+        import copulas.univariate as U
+        try:
+            U.Univariate(candidates=shared).fit(np.asarray(X, dtype=float)[::-1] * 3.0 + 50.0 + np.arange(len(X)) * 0.01)
+        except Exception:
+            pass
 
 
 SHAPES = ('symmetric', 'skewed', 'bimodal', 'bounded', 'heavy', 'five-values', 'near-constant', 'shifted-large', 'offset-tiny-spread', 'micro')
@@ -118,6 +139,7 @@ def _observe(job):
                 m.fit(Xc)
                 if past % 2 == 0:       # the caller reuses its buffer after the fit: the model is that of the data it was fitted to
                     Xc[:] = Xc[::-1] * 0.5 - 3.0
+            _sibling(m, X)
         except Exception as ex:
             return {'skip': True, 'model': mname, 'shape': shape, 'n': n, 'why': 'fit raised ' + type(ex).__name__}
         lo, hi = float(np.min(X)), float(np.max(X))
@@ -292,6 +314,7 @@ def _constant(job):
             except Exception:
                 pass
         m.fit(X.copy())
+        _sibling(m, X)
         below = np.array([c - 1.0, np.nextafter(c, -np.inf), c - 1e-9 * max(1.0, abs(c))])
         at = np.array([c, np.nextafter(c, np.inf), c + 1.0])
         rec['stepBelow'] = bool(np.all(np.asarray(m.cumulative_distribution(below)) == 0.0))
